@@ -315,6 +315,11 @@ func (ff *FuncFacts) ProvablyNonNil(v ssa.Value, at *ssa.BasicBlock, depth int) 
 		return false
 	}
 	v = unspill(v)
+	for _, f := range ff.NC(at) {
+		if y, isNil, ok := FactNilCmp(f); ok && !isNil && unspill(y) == v {
+			return true
+		}
+	}
 	switch x := v.(type) {
 	case *ssa.Const:
 		return !x.IsNil()
